@@ -555,7 +555,8 @@ class Engine:
                 out[test.args[0].id] = Val(v.ty.elem, v.ty.val(v.t), v.mut)
             if isinstance(v.ty, TUnion):
                 tags = [tg for tg, _ in v.ty.alts]
-                hit = [n for n in names if n in tags]
+                sup = getattr(v.ty, "supers", {})
+                hit = [tg for tg in tags if tg in names or any(n in sup.get(tg, ()) for n in names)]
                 remaining = [tg for tg in tags if tg not in hit] if not positive else hit
                 if len(remaining) == 1 and v.ty.alt_ty(remaining[0]) is not None:
                     tg = remaining[0]
@@ -1362,10 +1363,14 @@ class Engine:
                 if aty is None and isinstance(v.ty, TNoneT) and tag == "none":
                     return Val(ty, ty.mk(tag))
         if isinstance(v.ty, TUnion):
-            for tag, aty in v.ty.alts:
-                if aty is not None and aty.name == ty.name:
-                    self.raise_if(st, z3.Not(v.ty.is_(tag, v.t)), "TypeError", getattr(node, "lineno", None))
-                    return Val(ty, v.ty.get(tag, v.t))
+            same = [tag for tag, aty in v.ty.alts if aty is not None and aty.name == ty.name]
+            if same:  # (several alternatives may carry the wanted sort: any of them will do)
+                self.raise_if(st, z3.Not(z3.Or(*[v.ty.is_(tag, v.t) for tag in same])), "TypeError",
+                              getattr(node, "lineno", None))
+                out = v.ty.get(same[-1], v.t)
+                for tag in reversed(same[:-1]):
+                    out = z3.If(v.ty.is_(tag, v.t), v.ty.get(tag, v.t), out)
+                return Val(ty, out)
         if ty is TInt and v.ty is TBool:
             return Val(TInt, z3.If(v.t, 1, 0))
         if ty is TReal and v.ty is TInt:
@@ -2102,6 +2107,16 @@ class Engine:
                 x = self.coerce(args[0], ty.elem, st, node)
                 self.assign(f.value, Val(ty, ty.mk(n + 1, z3.Store(ty.arr(recv.t), n, x.t)), True), st, node, writeback=True)
                 return VNone
+            if name == "extend" and len(args) == 1:
+                tail = args[0]
+                if isinstance(tail.ty, TTuple):
+                    tail = self.coerce(tail, ty, st, node)
+                if not isinstance(tail.ty, TSeq) or tail.ty.name != ty.name:
+                    raise Unsupported("extend with another kind of iterable", node)
+                cat = self.concat(recv, tail, st, node)
+                cat.mut = True
+                self.assign(f.value, cat, st, node, writeback=True)
+                return VNone
             if name == "pop" and (not args or z3.is_int_value(z3.simplify(args[0].t))):
                 self.raise_if(st, n <= 0, "IndexError", L)
                 if args and z3.simplify(args[0].t).as_long() == 0:
@@ -2286,8 +2301,10 @@ class Engine:
             return z3.And(z3.Not(v.ty.is_none(v.t)), inner)
         if isinstance(v.ty, TUnion):
             tags = [t for t, _ in v.ty.alts]
-            if nm in tags:
-                return v.ty.is_(nm, v.t)
+            # (an alternative may be declared a subclass of other class names: `supers` of the union sort)
+            hit = [t for t in tags if t == nm or nm in getattr(v.ty, "supers", {}).get(t, ())]
+            if hit:
+                return z3.Or(*[v.ty.is_(t, v.t) for t in hit]) if len(hit) > 1 else v.ty.is_(hit[0], v.t)
             return z3.BoolVal(False)
         static = {"Int": "int", "Bool": "int", "Str": "str", "Slice": "slice"}.get(v.ty.name)
         if isinstance(v.ty, TSeq):
